@@ -654,6 +654,19 @@ def run(ctx):
     ctx.require(n_checked >= 10, "fewer than 10 asset set-ups checked for letter N")
     # duals['N'][ii] with ii the enumerate counter of the records
     if io_fn is not None:
+        # every read duals['N'][k]: k is the position in the *whole* list of records (enumerate(op.map_nodal_restr)) - not in a selection of it
+        for lp in [s for s in au.walk_stmts(io_fn.body) if isinstance(s, ast.For)]:
+            subs_n = [n for n in au.walk_local(lp) if isinstance(n, ast.Subscript) and isinstance(n.value, ast.Subscript) and au.const_str(n.value.slice) == "N"]
+            if not subs_n or not (isinstance(lp.iter, ast.Call) and au.method_name(lp.iter) == "enumerate" and lp.iter.args):
+                continue
+            src = ctx.resolve(io_fn, lp.iter.args[0], lp)
+            whole = isinstance(src, ast.Attribute) and src.attr == "map_nodal_restr"
+            if not whole:
+                derived = any(isinstance(y, ast.Attribute) and y.attr == "map_nodal_restr" for y in au.walk_local(src))
+                ctx.ob("C18.b", io_fn, "duals['N'] indexed by the record counter", False if derived else None,
+                       "the counter that indexes duals['N'] runs over %s - a *selection* of the records: position k in the selection is not row k of the nodal "
+                       "restrictions. Reporting for a part of the portfolio (the assets of node B only) shows the duals of the first rows - node A's - "
+                       "under node B (reported price 10 where the marginal value is 19)" % au.short(src, 60), node=lp)
         for lp in [s for s in au.walk_stmts(io_fn.body) if isinstance(s, ast.For)]:
             if "map_nodal_restr" in au.U(lp.iter) and isinstance(lp.iter, ast.Call) and au.method_name(lp.iter) == "enumerate":
                 cnt = au.target_names(lp.target)[0]
